@@ -1,1 +1,815 @@
-//! Shared helpers for the vgc check parts.
+//! Shared helpers for the vgc check parts (C08: wrapper writes are atomic
+//! under crashes; garbage collection is safe).
+//!
+//! Contents: the two wrappers behind one enum, the operation alphabet, the
+//! reference model (key -> value map), the four-path observation of a key
+//! (get, ranged get, head, list), fabrication of pre-0.10 ("legacy") objects
+//! directly in the inner store, and direct inspection of commit points.
+
+use aes_gcm::{AeadInOut, Aes256Gcm, Key, KeyInit, Nonce};
+use anda_object_store::{EncryptedStore, EncryptedStoreBuilder, MetaStore, MetaStoreBuilder};
+use bytes::Bytes;
+use futures::TryStreamExt;
+use object_store::{
+    CopyMode, CopyOptions, Error, ObjectStore, ObjectStoreExt, PutPayload, RenameOptions, RenameTargetMode,
+    path::Path,
+};
+use serde::{Deserialize, Serialize};
+use serde_bytes::ByteArray;
+use std::collections::BTreeMap;
+use std::sync::Arc;
+use vcore::ctlstore::{Content, CtlStore};
+
+// ---------------------------------------------------------------------------
+// keys and values
+
+/// Two logical keys; one of them nested so that `gen/<key>/<generation>`
+/// splitting sees a multi-part location.
+pub const KEYS: [&str; 2] = ["a", "dir/b"];
+
+pub fn key_path(k: u8) -> Path {
+    Path::from(KEYS[k as usize])
+}
+
+/// Value with tag `tag` (1..=15): every byte carries the tag in its high
+/// nibble, so two different values differ at *every* position (a mixture of
+/// two values is never equal to either) and lengths differ too. 40..=110
+/// bytes: 3 to 7 chunks at the 16-byte chunk size used for EncryptedStore.
+pub fn value(tag: u8) -> Vec<u8> {
+    assert!((1..=15).contains(&tag));
+    let len = 35 + 5 * tag as usize;
+    (0..len).map(|i| (tag << 4) | (i as u8 & 0x0f)).collect()
+}
+
+pub fn describe_value(v: &[u8]) -> String {
+    if v.is_empty() {
+        return "empty".into();
+    }
+    let tag = v[0] >> 4;
+    if (1..=15).contains(&tag) && v == value(tag).as_slice() {
+        format!("v{tag}")
+    } else {
+        format!("bytes[{}]:{:02x?}..", v.len(), &v[..v.len().min(6)])
+    }
+}
+
+pub const LEGACY_TAGS: [u8; 2] = [12, 13];
+pub const RECOVERY_TAGS: [u8; 2] = [14, 15];
+pub const ENC_SECRET: [u8; 32] = [7u8; 32];
+pub const ENC_CHUNK: u64 = 16;
+
+// ---------------------------------------------------------------------------
+// wrappers
+
+#[derive(Clone, Copy, Debug, PartialEq, Eq, Serialize, Deserialize)]
+pub enum Kind {
+    Meta,
+    Enc,
+}
+
+impl Kind {
+    pub fn name(&self) -> &'static str {
+        match self {
+            Kind::Meta => "MetaStore",
+            Kind::Enc => "EncryptedStore",
+        }
+    }
+}
+
+pub enum W {
+    Meta(MetaStore<Arc<CtlStore>>),
+    Enc(EncryptedStore<Arc<CtlStore>>),
+}
+
+impl W {
+    /// A fresh wrapper instance (cold metadata cache, empty in-flight set).
+    pub fn open(kind: Kind, store: Arc<CtlStore>) -> W {
+        match kind {
+            Kind::Meta => W::Meta(MetaStoreBuilder::new(store, 1000).build()),
+            Kind::Enc => W::Enc(
+                EncryptedStoreBuilder::with_secret(store, 1000, ENC_SECRET)
+                    .with_chunk_size(ENC_CHUNK)
+                    .build(),
+            ),
+        }
+    }
+    pub fn os(&self) -> &dyn ObjectStore {
+        match self {
+            W::Meta(s) => s,
+            W::Enc(s) => s,
+        }
+    }
+    pub async fn gc(&self) -> object_store::Result<usize> {
+        match self {
+            W::Meta(s) => s.collect_garbage().await,
+            W::Enc(s) => s.collect_garbage().await,
+        }
+    }
+}
+
+// ---------------------------------------------------------------------------
+// operations
+
+#[derive(Clone, Debug, PartialEq, Eq, Serialize, Deserialize)]
+pub enum Op {
+    Put { k: u8, v: u8 },
+    Multipart { k: u8, v: u8 },
+    Copy { f: u8, t: u8 },
+    Rename { f: u8, t: u8, create: bool },
+    Delete { k: u8 },
+    Gc,
+}
+
+impl Op {
+    pub fn kind(&self) -> &'static str {
+        match self {
+            Op::Put { .. } => "put",
+            Op::Multipart { .. } => "multipart",
+            Op::Copy { .. } => "copy",
+            Op::Rename { create: false, .. } => "rename-overwrite",
+            Op::Rename { create: true, .. } => "rename-create",
+            Op::Delete { .. } => "delete",
+            Op::Gc => "gc",
+        }
+    }
+    pub fn label(&self) -> String {
+        let k = |i: &u8| KEYS[*i as usize];
+        match self {
+            Op::Put { k: key, v } => format!("put({},v{v})", k(key)),
+            Op::Multipart { k: key, v } => format!("multipart({},v{v})", k(key)),
+            Op::Copy { f, t } => format!("copy({}->{})", k(f), k(t)),
+            Op::Rename { f, t, create } => format!(
+                "rename({}->{},{})",
+                k(f),
+                k(t),
+                if *create { "create" } else { "overwrite" }
+            ),
+            Op::Delete { k: key } => format!("delete({})", k(key)),
+            Op::Gc => "collect_garbage".into(),
+        }
+    }
+}
+
+/// The operation alphabet at sequence position `pos` (0-based): puts at
+/// position `pos` write value tag `pos + 1`, so every write of a sequence is
+/// distinguishable.
+pub fn alphabet(pos: usize) -> Vec<Op> {
+    let v = pos as u8 + 1;
+    let mut out = Vec::new();
+    for k in 0..2u8 {
+        out.push(Op::Put { k, v });
+    }
+    for k in 0..2u8 {
+        out.push(Op::Multipart { k, v });
+    }
+    for f in 0..2u8 {
+        out.push(Op::Copy { f, t: 1 - f });
+    }
+    for f in 0..2u8 {
+        out.push(Op::Rename {
+            f,
+            t: 1 - f,
+            create: false,
+        });
+        out.push(Op::Rename {
+            f,
+            t: 1 - f,
+            create: true,
+        });
+    }
+    for k in 0..2u8 {
+        out.push(Op::Delete { k });
+    }
+    out.push(Op::Gc);
+    out
+}
+
+/// Starts a multipart upload of value `v` to key `k` and feeds both parts;
+/// only `complete()` is left to do.
+pub async fn multipart_begin(w: &W, k: u8, v: u8) -> object_store::Result<Box<dyn object_store::MultipartUpload>> {
+    let data = value(v);
+    let cut = data.len() / 2 + 3; // not chunk-aligned on purpose
+    let mut up = w.os().put_multipart(&key_path(k)).await?;
+    up.put_part(PutPayload::from(data[..cut].to_vec())).await?;
+    up.put_part(PutPayload::from(data[cut..].to_vec())).await?;
+    Ok(up)
+}
+
+/// Runs one operation through the wrapper.
+pub async fn run_op(w: &W, op: &Op) -> object_store::Result<()> {
+    match op {
+        Op::Put { k, v } => w.os().put(&key_path(*k), PutPayload::from(value(*v))).await.map(|_| ()),
+        Op::Multipart { k, v } => {
+            let mut up = multipart_begin(w, *k, *v).await?;
+            up.complete().await.map(|_| ())
+        }
+        Op::Copy { f, t } => {
+            w.os()
+                .copy_opts(
+                    &key_path(*f),
+                    &key_path(*t),
+                    CopyOptions {
+                        mode: CopyMode::Overwrite,
+                        ..Default::default()
+                    },
+                )
+                .await
+        }
+        Op::Rename { f, t, create } => {
+            w.os()
+                .rename_opts(
+                    &key_path(*f),
+                    &key_path(*t),
+                    RenameOptions {
+                        target_mode: if *create {
+                            RenameTargetMode::Create
+                        } else {
+                            RenameTargetMode::Overwrite
+                        },
+                        ..Default::default()
+                    },
+                )
+                .await
+        }
+        Op::Delete { k } => w.os().delete(&key_path(*k)).await,
+        Op::Gc => w.gc().await.map(|_| ()),
+    }
+}
+
+// ---------------------------------------------------------------------------
+// reference model: key index -> value (None = absent)
+
+pub type Model = Vec<Option<Vec<u8>>>;
+
+pub fn empty_model() -> Model {
+    vec![None, None]
+}
+
+/// The model after `op` if it succeeds, and whether it is expected to
+/// succeed. A failing operation leaves the model unchanged.
+pub fn model_step(m: &Model, op: &Op) -> (Model, bool) {
+    let mut n = m.clone();
+    let ok = match op {
+        Op::Put { k, v } | Op::Multipart { k, v } => {
+            n[*k as usize] = Some(value(*v));
+            true
+        }
+        Op::Copy { f, t } => match &m[*f as usize] {
+            Some(val) => {
+                n[*t as usize] = Some(val.clone());
+                true
+            }
+            None => false,
+        },
+        Op::Rename { f, t, create } => match &m[*f as usize] {
+            Some(val) if !(*create && m[*t as usize].is_some()) => {
+                n[*t as usize] = Some(val.clone());
+                n[*f as usize] = None;
+                true
+            }
+            _ => false,
+        },
+        Op::Delete { k } => {
+            let had = m[*k as usize].is_some();
+            n[*k as usize] = None;
+            had
+        }
+        Op::Gc => true,
+    };
+    if ok { (n, true) } else { (m.clone(), false) }
+}
+
+pub fn describe_model(m: &Model) -> String {
+    m.iter()
+        .enumerate()
+        .map(|(i, v)| {
+            format!(
+                "{}={}",
+                KEYS[i],
+                v.as_ref().map(|v| describe_value(v)).unwrap_or_else(|| "absent".into())
+            )
+        })
+        .collect::<Vec<_>>()
+        .join(" ")
+}
+
+// ---------------------------------------------------------------------------
+// observation: one key through all four read paths
+
+#[derive(Clone, Debug, PartialEq, Eq)]
+pub enum Obs {
+    Absent,
+    Value(Vec<u8>),
+    /// Unreadable, undecryptable, truncated, or the read paths disagree.
+    Broken(String),
+}
+
+impl Obs {
+    pub fn describe(&self) -> String {
+        match self {
+            Obs::Absent => "absent".into(),
+            Obs::Value(v) => describe_value(v),
+            Obs::Broken(e) => format!("BROKEN({e})"),
+        }
+    }
+}
+
+#[derive(Clone, Debug, PartialEq, Eq)]
+pub struct View {
+    pub keys: Vec<Obs>,
+    /// Listing-level anomalies: listing failed, unknown key listed.
+    pub anomalies: Vec<String>,
+}
+
+impl View {
+    pub fn describe(&self) -> String {
+        let mut s = self
+            .keys
+            .iter()
+            .enumerate()
+            .map(|(i, o)| format!("{}={}", KEYS[i], o.describe()))
+            .collect::<Vec<_>>()
+            .join(" ");
+        if !self.anomalies.is_empty() {
+            s.push_str(&format!(" anomalies={:?}", self.anomalies));
+        }
+        s
+    }
+    pub fn as_model(&self) -> Option<Model> {
+        if !self.anomalies.is_empty() {
+            return None;
+        }
+        self.keys
+            .iter()
+            .map(|o| match o {
+                Obs::Absent => Some(None),
+                Obs::Value(v) => Some(Some(v.clone())),
+                Obs::Broken(_) => None,
+            })
+            .collect()
+    }
+}
+
+fn short(e: &Error) -> String {
+    let s = e.to_string();
+    s.chars().take(160).collect()
+}
+
+async fn observe_key(os: &dyn ObjectStore, key: &Path, listed: Option<u64>) -> Obs {
+    // 1. full get
+    let full: Option<(u64, Vec<u8>)> = match os.get(key).await {
+        Ok(res) => {
+            let declared = res.meta.size;
+            match res.bytes().await {
+                Ok(b) => Some((declared, b.to_vec())),
+                Err(e) => return Obs::Broken(format!("get: body unreadable: {}", short(&e))),
+            }
+        }
+        Err(Error::NotFound { .. }) => None,
+        Err(e) => return Obs::Broken(format!("get: {}", short(&e))),
+    };
+    // 2. head
+    let head: Option<u64> = match os.head(key).await {
+        Ok(m) => Some(m.size),
+        Err(Error::NotFound { .. }) => None,
+        Err(e) => return Obs::Broken(format!("head: {}", short(&e))),
+    };
+    match (&full, head, listed) {
+        (None, None, None) => return Obs::Absent,
+        (Some(_), Some(_), Some(_)) => {}
+        _ => {
+            return Obs::Broken(format!(
+                "read paths disagree on presence: get={} head={} listed={}",
+                full.is_some(),
+                head.is_some(),
+                listed.is_some()
+            ));
+        }
+    }
+    let (declared, data) = full.unwrap();
+    let len = data.len() as u64;
+    if declared != len || head != Some(len) || listed != Some(len) {
+        return Obs::Broken(format!(
+            "sizes disagree: body={len} get.meta={declared} head={head:?} list={listed:?}"
+        ));
+    }
+    // 3. ranged reads (cross chunk boundaries at chunk size 16)
+    if len >= 8 {
+        let r = (len / 3)..(len - 1);
+        match os.get_range(key, r.clone()).await {
+            Ok(b) => {
+                if b.as_ref() != &data[r.start as usize..r.end as usize] {
+                    return Obs::Broken(format!("get_range {r:?} differs from the full body"));
+                }
+            }
+            Err(e) => return Obs::Broken(format!("get_range {r:?}: {}", short(&e))),
+        }
+        let rs = [0..3u64, (len - 5)..len];
+        match os.get_ranges(key, &rs).await {
+            Ok(parts) => {
+                let ok = parts.len() == 2
+                    && parts[0].as_ref() == &data[0..3]
+                    && parts[1].as_ref() == &data[(len - 5) as usize..];
+                if !ok {
+                    return Obs::Broken(format!("get_ranges {rs:?} differ from the full body"));
+                }
+            }
+            Err(e) => return Obs::Broken(format!("get_ranges: {}", short(&e))),
+        }
+    }
+    Obs::Value(data)
+}
+
+/// Reads every key through get, ranged get, head and the listing.
+pub async fn observe_all(os: &dyn ObjectStore) -> View {
+    let mut anomalies = Vec::new();
+    let mut listing: BTreeMap<String, u64> = BTreeMap::new();
+    match os.list(None).try_collect::<Vec<_>>().await {
+        Ok(entries) => {
+            for e in entries {
+                let name = e.location.to_string();
+                if !KEYS.contains(&name.as_str()) {
+                    anomalies.push(format!("unknown key listed: {name}"));
+                }
+                if listing.insert(name.clone(), e.size).is_some() {
+                    anomalies.push(format!("key listed twice: {name}"));
+                }
+            }
+        }
+        Err(e) => anomalies.push(format!("list failed: {}", short(&e))),
+    }
+    let mut keys = Vec::new();
+    for k in 0..KEYS.len() as u8 {
+        let listed = listing.get(KEYS[k as usize]).copied();
+        keys.push(observe_key(os, &key_path(k), listed).await);
+    }
+    View { keys, anomalies }
+}
+
+// ---------------------------------------------------------------------------
+// verdict on one view against {old, new}
+
+/// Problems of `view` given that every key must read as `old[k]` (last
+/// completed commit) or `new[k]` (what the interrupted operation was
+/// writing). Returns (class, detail) pairs; empty = fine.
+pub fn judge(view: &View, old: &Model, new: &Model, interrupted: Option<&Op>) -> Vec<(String, String)> {
+    let mut out = Vec::new();
+    for a in &view.anomalies {
+        out.push(("listing-anomaly".to_string(), a.clone()));
+    }
+    for (i, o) in view.keys.iter().enumerate() {
+        match o {
+            Obs::Broken(e) => out.push(("unreadable-key".into(), format!("{}: {e}", KEYS[i]))),
+            Obs::Absent => {
+                if old[i].is_some() && new[i].is_some() {
+                    out.push((
+                        "key-lost".into(),
+                        format!("{} is absent; allowed: {} or {}", KEYS[i], dv(&old[i]), dv(&new[i])),
+                    ));
+                }
+            }
+            Obs::Value(v) => {
+                let is_old = old[i].as_deref() == Some(v.as_slice());
+                let is_new = new[i].as_deref() == Some(v.as_slice());
+                if !is_old && !is_new {
+                    out.push((
+                        "neither-old-nor-new".into(),
+                        format!(
+                            "{} reads {}; allowed: {} or {}",
+                            KEYS[i],
+                            describe_value(v),
+                            dv(&old[i]),
+                            dv(&new[i])
+                        ),
+                    ));
+                }
+            }
+        }
+    }
+    // rename: never both lost — once the source is gone the destination must
+    // hold the new value.
+    if let Some(Op::Rename { f, t, .. }) = interrupted
+        && old != new
+        && view.keys[*f as usize] == Obs::Absent
+        && view.keys[*t as usize] != new[*t as usize].clone().map(Obs::Value).unwrap_or(Obs::Absent)
+    {
+        out.push((
+            "rename-lost-value".into(),
+            format!(
+                "source {} is gone but destination {} reads {}",
+                KEYS[*f as usize],
+                KEYS[*t as usize],
+                view.keys[*t as usize].describe()
+            ),
+        ));
+    }
+    out
+}
+
+fn dv(v: &Option<Vec<u8>>) -> String {
+    v.as_ref().map(|v| describe_value(v)).unwrap_or_else(|| "absent".into())
+}
+
+// ---------------------------------------------------------------------------
+// direct inspection of the inner store
+
+#[derive(Deserialize)]
+struct Pointer {
+    #[serde(rename = "g", default)]
+    generation: Option<String>,
+}
+
+/// For every commit point `meta/<key>` of `content`: the payload path it
+/// references (`gen/<key>/<generation>` or the legacy `data/<key>`).
+pub fn referenced_payloads(content: &Content) -> BTreeMap<String, String> {
+    let mut out = BTreeMap::new();
+    for (path, doc) in content {
+        let Some(key) = path.strip_prefix("meta/") else {
+            continue;
+        };
+        let Ok(p) = cbor2::from_slice::<Pointer>(doc) else {
+            continue;
+        };
+        let payload = match p.generation {
+            Some(g) => format!("gen/{key}/{g}"),
+            None => format!("data/{key}"),
+        };
+        out.insert(path.clone(), payload);
+    }
+    out
+}
+
+/// Commit points or referenced payloads of `before` that are missing or
+/// changed in `after`.
+pub fn damaged_by_gc(before: &Content, after: &Content) -> Vec<String> {
+    let mut out = Vec::new();
+    for (meta, payload) in referenced_payloads(before) {
+        if before.get(&meta) != after.get(&meta) {
+            out.push(format!("commit point {meta} changed or removed"));
+        }
+        if let Some(b) = before.get(&payload)
+            && after.get(&payload) != Some(b)
+        {
+            out.push(format!("referenced payload {payload} (of {meta}) removed or changed"));
+        }
+    }
+    out
+}
+
+/// Payload objects (`gen/`, `data/`) no commit point references.
+pub fn unreferenced_payloads(content: &Content) -> Vec<String> {
+    let refs: std::collections::BTreeSet<String> = referenced_payloads(content).into_values().collect();
+    content
+        .keys()
+        .filter(|p| (p.starts_with("gen/") || p.starts_with("data/")) && !refs.contains(*p))
+        .cloned()
+        .collect()
+}
+
+// ---------------------------------------------------------------------------
+// legacy (pre-0.10) objects, built directly in the inner store from the
+// documented layout: payload at `data/<key>`, metadata at `meta/<key>`
+// without a generation pointer.
+
+#[derive(Serialize)]
+struct LegacyMetaDoc {
+    #[serde(rename = "s")]
+    size: u64,
+    #[serde(rename = "e")]
+    e_tag: Option<String>,
+    #[serde(rename = "o")]
+    original_tag: Option<String>,
+    #[serde(rename = "v")]
+    original_version: Option<String>,
+}
+
+#[derive(Serialize)]
+struct LegacyEncDoc {
+    #[serde(rename = "s")]
+    size: u64,
+    #[serde(rename = "e")]
+    e_tag: Option<String>,
+    #[serde(rename = "o")]
+    original_tag: Option<String>,
+    #[serde(rename = "v")]
+    original_version: Option<String>,
+    #[serde(rename = "n")]
+    aes_nonce: ByteArray<12>,
+    #[serde(rename = "t")]
+    aes_tags: Vec<ByteArray<16>>,
+    #[serde(rename = "c", skip_serializing_if = "Option::is_none")]
+    chunk_size: Option<u64>,
+    #[serde(rename = "av", skip_serializing_if = "Option::is_none")]
+    chunk_aad_version: Option<u8>,
+    #[serde(rename = "an", skip_serializing_if = "Option::is_none")]
+    auth_nonce: Option<ByteArray<12>>,
+    #[serde(rename = "at", skip_serializing_if = "Option::is_none")]
+    auth_tag: Option<ByteArray<16>>,
+}
+
+#[derive(Clone, Copy, Debug, PartialEq, Eq, Serialize, Deserialize)]
+pub enum LegacyFlavor {
+    /// MetaStore pre-0.10 / EncryptedStore pre-authentication: no `an`/`at`,
+    /// chunks sealed with an empty AAD.
+    Plain,
+    /// EncryptedStore 0.9.x: sealed metadata, bound chunk AAD, no generation.
+    SealedV1,
+}
+
+fn derive_nonce(base: &[u8; 12], idx: u64) -> [u8; 12] {
+    let mut nonce = *base;
+    let mut ctr = [0u8; 8];
+    ctr.copy_from_slice(&nonce[4..12]);
+    let c = u64::from_le_bytes(ctr).wrapping_add(idx);
+    nonce[4..12].copy_from_slice(&c.to_le_bytes());
+    nonce
+}
+
+fn chunk_aad(chunk_size: u64, idx: u64) -> Vec<u8> {
+    let mut aad = Vec::with_capacity(52);
+    aad.extend_from_slice(b"anda_object_store.encrypted.chunk.v1");
+    aad.extend_from_slice(&chunk_size.to_le_bytes());
+    aad.extend_from_slice(&idx.to_le_bytes());
+    aad
+}
+
+fn push_bytes(out: &mut Vec<u8>, v: &[u8]) {
+    out.extend_from_slice(&(v.len() as u64).to_le_bytes());
+    out.extend_from_slice(v);
+}
+
+fn push_opt_str(out: &mut Vec<u8>, v: Option<&str>) {
+    match v {
+        Some(v) => {
+            out.push(1);
+            push_bytes(out, v.as_bytes());
+        }
+        None => out.push(0),
+    }
+}
+
+/// AAD of the 0.9.x metadata seal (no generation, no commit timestamp).
+fn sealed_v1_aad(key: &str, d: &LegacyEncDoc) -> Vec<u8> {
+    let mut aad = Vec::new();
+    aad.extend_from_slice(b"anda_object_store.encrypted.metadata.v1");
+    push_bytes(&mut aad, key.as_bytes());
+    aad.extend_from_slice(&d.size.to_le_bytes());
+    push_opt_str(&mut aad, d.e_tag.as_deref());
+    push_opt_str(&mut aad, d.original_tag.as_deref());
+    push_opt_str(&mut aad, d.original_version.as_deref());
+    push_bytes(&mut aad, d.aes_nonce.as_slice());
+    match d.chunk_size {
+        Some(c) => {
+            aad.push(1);
+            aad.extend_from_slice(&c.to_le_bytes());
+        }
+        None => aad.push(0),
+    }
+    match d.chunk_aad_version {
+        Some(v) => {
+            aad.push(1);
+            aad.push(v);
+        }
+        None => aad.push(0),
+    }
+    aad.extend_from_slice(&(d.aes_tags.len() as u64).to_le_bytes());
+    for t in &d.aes_tags {
+        push_bytes(&mut aad, t.as_slice());
+    }
+    aad
+}
+
+/// Adds a legacy object for key `k` holding `value(tag)` to `content`.
+pub fn put_legacy(content: &mut Content, kind: Kind, flavor: LegacyFlavor, k: u8, tag: u8) {
+    let key = KEYS[k as usize];
+    let plain = value(tag);
+    match kind {
+        Kind::Meta => {
+            let doc = LegacyMetaDoc {
+                size: plain.len() as u64,
+                e_tag: Some(format!("legacy-etag-{tag}")),
+                original_tag: Some("0".into()),
+                original_version: None,
+            };
+            content.insert(format!("data/{key}"), Bytes::from(plain));
+            content.insert(format!("meta/{key}"), Bytes::from(cbor2::to_vec(&doc).expect("cbor")));
+        }
+        Kind::Enc => {
+            let cipher = Aes256Gcm::new(&Key::<Aes256Gcm>::from(ENC_SECRET));
+            let base: [u8; 12] = [0x40 + tag; 12];
+            let bound = flavor == LegacyFlavor::SealedV1;
+            let mut ct = plain.clone();
+            let mut tags = Vec::new();
+            for (i, chunk) in ct.chunks_mut(ENC_CHUNK as usize).enumerate() {
+                let nonce = derive_nonce(&base, i as u64);
+                let aad = if bound { chunk_aad(ENC_CHUNK, i as u64) } else { Vec::new() };
+                let t = cipher
+                    .encrypt_inout_detached(&Nonce::from(nonce), &aad, chunk.into())
+                    .expect("encrypt");
+                let t: [u8; 16] = t.into();
+                tags.push(ByteArray::from(t));
+            }
+            let mut doc = LegacyEncDoc {
+                size: plain.len() as u64,
+                e_tag: Some(format!("legacy-etag-{tag}")),
+                original_tag: Some("0".into()),
+                original_version: None,
+                aes_nonce: ByteArray::from(base),
+                aes_tags: tags,
+                chunk_size: Some(ENC_CHUNK),
+                chunk_aad_version: if bound { Some(1) } else { None },
+                auth_nonce: None,
+                auth_tag: None,
+            };
+            if bound {
+                let n: [u8; 12] = [0x90 + tag; 12];
+                let aad = sealed_v1_aad(key, &doc);
+                let mut empty = [];
+                let t = cipher
+                    .encrypt_inout_detached(&Nonce::from(n), &aad, (&mut empty[..]).into())
+                    .expect("seal");
+                let t: [u8; 16] = t.into();
+                doc.auth_nonce = Some(ByteArray::from(n));
+                doc.auth_tag = Some(ByteArray::from(t));
+            }
+            content.insert(format!("data/{key}"), Bytes::from(ct));
+            content.insert(format!("meta/{key}"), Bytes::from(cbor2::to_vec(&doc).expect("cbor")));
+        }
+    }
+}
+
+// ---------------------------------------------------------------------------
+// start states
+
+#[derive(Clone, Debug, PartialEq, Eq, Serialize, Deserialize)]
+pub enum Start {
+    Empty,
+    /// Key 0 is a legacy object.
+    LegacyA(LegacyFlavor),
+    /// Both keys are legacy objects.
+    LegacyAB(LegacyFlavor),
+    /// Key 0 legacy plus an orphaned legacy payload `data/<key1>` without a
+    /// commit point (a pre-0.10 crash leftover).
+    LegacyAOrphanB(LegacyFlavor),
+}
+
+impl Start {
+    pub fn name(&self) -> String {
+        match self {
+            Start::Empty => "empty".into(),
+            Start::LegacyA(f) => format!("legacy-a/{f:?}"),
+            Start::LegacyAB(f) => format!("legacy-a+b/{f:?}"),
+            Start::LegacyAOrphanB(f) => format!("legacy-a+orphan-data-b/{f:?}"),
+        }
+    }
+    pub fn is_legacy(&self) -> bool {
+        *self != Start::Empty
+    }
+    pub fn build(&self, kind: Kind) -> (Content, Model) {
+        let mut c = Content::new();
+        let mut m = empty_model();
+        match self {
+            Start::Empty => {}
+            Start::LegacyA(f) => {
+                put_legacy(&mut c, kind, *f, 0, LEGACY_TAGS[0]);
+                m[0] = Some(value(LEGACY_TAGS[0]));
+            }
+            Start::LegacyAB(f) => {
+                put_legacy(&mut c, kind, *f, 0, LEGACY_TAGS[0]);
+                put_legacy(&mut c, kind, *f, 1, LEGACY_TAGS[1]);
+                m[0] = Some(value(LEGACY_TAGS[0]));
+                m[1] = Some(value(LEGACY_TAGS[1]));
+            }
+            Start::LegacyAOrphanB(f) => {
+                put_legacy(&mut c, kind, *f, 0, LEGACY_TAGS[0]);
+                put_legacy(&mut c, kind, *f, 1, LEGACY_TAGS[1]);
+                c.remove(&format!("meta/{}", KEYS[1]));
+                m[0] = Some(value(LEGACY_TAGS[0]));
+            }
+        }
+        (c, m)
+    }
+}
+
+pub fn starts_for(kind: Kind) -> Vec<Start> {
+    let mut v = vec![
+        Start::Empty,
+        Start::LegacyA(LegacyFlavor::Plain),
+        Start::LegacyAB(LegacyFlavor::Plain),
+        Start::LegacyAOrphanB(LegacyFlavor::Plain),
+    ];
+    if kind == Kind::Enc {
+        v.push(Start::LegacyA(LegacyFlavor::SealedV1));
+        v.push(Start::LegacyAB(LegacyFlavor::SealedV1));
+    }
+    v
+}
+
+/// Installs the logical clock on this thread: next read returns `at`.
+pub fn clock(at: u64) {
+    anda_db_utils::verif::set_clock(Some((at, 1)));
+}
+
+pub fn clock_now() -> u64 {
+    anda_db_utils::verif::peek_clock().expect("logical clock installed")
+}
